@@ -214,6 +214,7 @@ RES_TABLE = {
     ("<syscalls::FrozenFd as std::convert::From<Fd>>::from", "utils::fd::FdExt::as_unsafe_path_unchecked", "ok"): "diagnostics only (path shown in error messages)",
     ("utils::dir::remove_all", "utils::dir::remove_inode", "is_ok"): "fast path; on failure the slow path redoes the removal and reports its own error",
     ("procfs::ProcfsHandle::new::{closure#0}", "*", "fallback"): "constructor fallback chain",
+    ("procfs::ProcfsHandle::open", "procfs::ProcfsHandle::new_unmasked", "swallowed"): "no unmasked handle available: the original lookup error is returned instead (direction checked by C08.R3)",
     ("syscalls::RENAME_FLAGS_SUPPORTED::{closure#0}", "syscalls::renameat2", "matched"): "feature probe",
 }
 
@@ -615,7 +616,8 @@ def _errnos_distinguished(ctx, b):
         t = blk.term
         if t.kind == "switch" and t.raw["dty"] == "i32":
             for v in t.raw["vals"]:
-                errs.add(v)
+                if 0 < v < 4096:       # errno values; other i32 matches (AT_FDCWD = -100, descriptor numbers) are not errnos
+                    errs.add(v)
         for s in blk.stmts:
             if s.kind == "assign" and s.rv["k"] == "bin" and s.rv["op"] in ("Eq", "Ne"):
                 for o in s.rv_operands():
